@@ -156,41 +156,3 @@ def remoteSftpHasSkel : List String := [
 
 end Desync.Remote.Expected
 
-namespace Desync.Remote
-
--- `decide` compares string literals character by character (the longest statement has 130)
-set_option maxRecDepth 16384
-
-/-- `S3Store.StoreChunk` is still the loop of `s3PutLoop`, and the error of `PutObject` reaches the `return` -/
-theorem gen_remote_s3_store :
-    Gen.site_remote_s3_store_found = true ∧ Gen.site_remote_s3_store_put_found = true ∧
-    Gen.remoteS3LoopAssignsOuterErr = true ∧ Gen.remoteS3StoreSkel = Expected.remoteS3StoreSkel := by decide
-
-
-/-- `S3Store.GetChunk` is still the loop of `s3GetLoop` with the error-code switch of `s3GetChunk` -/
-theorem gen_remote_s3_get :
-    Gen.site_remote_s3_get_found = true ∧ Gen.remoteS3GetSkel = Expected.remoteS3GetSkel := by decide
-
-/-- both `HasChunk` still end in `return err == nil, nil` -/
-theorem gen_remote_has :
-    Gen.site_remote_s3_has_found = true ∧ Gen.site_remote_sftp_has_found = true ∧
-    Gen.remoteS3HasSkel = Expected.remoteS3HasSkel ∧ Gen.remoteSftpHasSkel = Expected.remoteSftpHasSkel := by decide
-
-/-- `SFTPStoreBase.StoreObject` / `SFTPStore.StoreChunk` still have the steps and failure paths of `sftpStoreObject` -/
-theorem gen_remote_sftp_store :
-    Gen.site_remote_sftp_storeobject_found = true ∧ Gen.site_remote_sftp_store_found = true ∧
-    Gen.remoteSftpStoreObjectSkel = Expected.remoteSftpStoreObjectSkel ∧
-    Gen.remoteSftpStoreSkel = Expected.remoteSftpStoreSkel := by decide
-
-/-- `SFTPStore.GetChunk` is still Open / IsNotExist → ChunkMissing / ReadAll / constructor -/
-theorem gen_remote_sftp_get :
-    Gen.site_remote_sftp_get_found = true ∧ Gen.remoteSftpGetSkel = Expected.remoteSftpGetSkel := by decide
-
-/-- every method of `SFTPStore` that takes a connection from the pool begins with
-    `c := <-s.pool; defer func() { s.pool <- c }()` and takes no other: no return path keeps the connection -/
-theorem gen_remote_pool :
-    Gen.site_remote_sftp_pool_found = true ∧
-    Gen.remoteSftpPoolDeferredPutBack = ["GetChunk", "HasChunk", "Prune", "RemoveChunk", "StoreChunk"] ∧
-    Gen.remoteSftpPoolOtherTakers = [] ∧ Gen.remoteSftpPoolDrains = ["Close"] := by decide
-
-end Desync.Remote
